@@ -20,6 +20,7 @@ Conventions
 * Rust panics are explicit results (`InsertRes.panic`, `TickRes.panic`, `none` of `intervalAt`).
 -/
 import Compio.Gen.IntervalTick
+import Compio.Gen.PollWith
 
 namespace Compio.Timer
 
@@ -128,6 +129,51 @@ def woken (expired : List Entry) : List Nat := expired.filterMap (·.2)
 /-- `TimerRuntime::poll_timer`: `true` = `Poll::Ready(())` -/
 def pollTimer (w : Wheel) (k : Key) (wk : Nat) : Wheel × Bool :=
   if isCompleted w k then (w, true) else (updateWaker w k wk, false)
+
+/-! ## `Runtime::poll_with` (lib.rs): the one place where the wheel is swept
+
+`poll_with(timeout)` polls the driver and calls `TimerRuntime::wake()`. How the driver poll returned
+(`Ok(())` because completions were reaped or the notifier had been woken, `TimedOut`, `Interrupted`,
+another error) is a free parameter here. The statement kinds of the body, in source order, and the
+error kinds it swallows are regenerated from the source by the extractor
+(`Compio.Gen.PollWith.body` / `swallowedErrors`); `pollWith` interprets them. -/
+
+inductive PollOutcome where
+  | ok
+  | timedOut
+  | interrupted
+  | otherError
+deriving DecidableEq, Repr
+
+def PollOutcome.errName : PollOutcome → Option String
+  | .ok => none
+  | .timedOut => some "TimedOut"
+  | .interrupted => some "Interrupted"
+  | .otherError => some "Other"
+
+open Compio.Gen.PollWith in
+/-- run the statements; `now` is the clock when `wake` reads it; `none` = `panic!("{e:?}")` -/
+def pollWithStmts (now : Nat) (o : PollOutcome) : List Stmt → Wheel → List Entry → Option (Wheel × List Entry)
+  | [], w, ex => some (w, ex)
+  | .other :: rest, w, ex => pollWithStmts now o rest w ex
+  | .driverPoll :: rest, w, ex =>
+    match o.errName with
+    | none => pollWithStmts now o rest w ex
+    | some n => if swallowedErrors.contains n then pollWithStmts now o rest w ex else none
+  | .wakeTimers :: rest, w, ex =>
+    let (w', e) := wake w now
+    pollWithStmts now o rest w' (ex ++ e)
+  | .wakeTimersGuarded :: rest, w, ex =>
+    -- a sweep under a condition the extractor does not interpret: it may be skipped; the model takes
+    -- the reading that it runs only when the driver poll did not return `Ok(())`
+    if o = .ok then pollWithStmts now o rest w ex
+    else
+      let (w', e) := wake w now
+      pollWithStmts now o rest w' (ex ++ e)
+
+/-- `Runtime::poll_with`: new wheel and the entries expired (their wakers are invoked) -/
+def pollWith (w : Wheel) (now : Nat) (o : PollOutcome) : Option (Wheel × List Entry) :=
+  pollWithStmts now o Compio.Gen.PollWith.body w []
 
 /-! ## Worlds: an explicit clock plus the wheel, and arbitrary operation sequences -/
 
